@@ -11,6 +11,8 @@ import time
 from . import runner
 from .runner import VERIF, EXIT_OK, EXIT_VIOLATION, EXIT_INCONCLUSIVE
 
+OUT = os.environ.get('VERIF_OUT') or VERIF      # seed evaluations on scratch copies write their evidence / replays elsewhere
+
 
 def _pool_run(jobs, nproc):
     if not jobs:
@@ -90,8 +92,8 @@ def cmd_run(args):
             inconc.append(dict(label='canary', why='canary mutant %s not detected' % c['name']))
 
     # ---- report
-    os.makedirs(os.path.join(VERIF, 'replays'), exist_ok=True)
-    for f in glob.glob(os.path.join(VERIF, 'replays', pid + '-*.json')):
+    os.makedirs(os.path.join(OUT, 'replays'), exist_ok=True)
+    for f in glob.glob(os.path.join(OUT, 'replays', pid + '-*.json')):
         os.remove(f)
     for kid, (k, vs) in sorted(known_hits.items()):
         print('KNOWN-FINDING: property=%s %s [%s; %d occurrence(s) in this run]' % (pid, k['what'], kid, len(vs)))
@@ -103,7 +105,7 @@ def cmd_run(args):
             continue
         seen.add(key)
         n += 1
-        path = os.path.join(VERIF, 'replays', '%s-%d.json' % (pid, n))
+        path = os.path.join(OUT, 'replays', '%s-%d.json' % (pid, n))
         with open(path, 'w') as f:
             json.dump(dict(property=pid, harness=v['harness'], params=v['params'], values=v['values'], label=v['label'],
                            kind=v['kind'], failed=v['failed'], error=v['error'], detail=v.get('detail', '')), f, indent=1, default=str)
@@ -130,8 +132,8 @@ def cmd_run(args):
             print('  slow job: %.1fs solver %.1fs paths %d  %s %s  [slowest query %.1fs: %s]' % (r['wall_s'], r['solver_s'], r['paths'], r['harness'], json.dumps(r['params'], default=str)[:160], r['max_query_s'], r['slowest']))
     wall = time.time() - t0
     ev = build_evidence(mod, pid, tier, seed, results, canaries, viol, known_hits, inconc, wall, nproc)
-    os.makedirs(os.path.join(VERIF, 'evidence'), exist_ok=True)
-    with open(os.path.join(VERIF, 'evidence', pid + '.json'), 'w') as f:
+    os.makedirs(os.path.join(OUT, 'evidence'), exist_ok=True)
+    with open(os.path.join(OUT, 'evidence', pid + '.json'), 'w') as f:
         json.dump(ev, f, indent=1, default=str)
     cov = ev['coverage']
     print('%s tier=%s jobs=%d paths=%d obligations=%d discharged=%d (ground %d) violations=%d known=%d inconclusive=%d solver_s=%.1f max_query_s=%.1f wall_s=%.1f'
